@@ -30,8 +30,10 @@ type Item struct {
 	// ArgMax > 0: the event takes an integer argument in [0, ArgMax) decided by the
 	// chooser and recorded in the log as "key#arg" (e.g. the chunk size of a delivery).
 	ArgMax func() int
-	seq    int
-	gid    string
+	// Last: considered only when no other event is enabled ("settle" points of harness tasks).
+	Last bool
+	seq  int
+	gid  string
 }
 
 // Sched is one run's scheduler.
@@ -48,9 +50,9 @@ type Sched struct {
 	replayPos int
 	Diverged  int // step at which replay first diverged (-1 = not)
 
-	Log   []string // chosen keys, one per step
-	Steps int
-	Trace bool
+	Log        []string // chosen keys, one per step
+	Steps      int
+	Trace      bool
 	TraceLines []string
 
 	// Quantum is the amount of simulated time the clock advances when nothing is enabled.
@@ -62,12 +64,12 @@ type Sched struct {
 	// AtQuiescence hooks are called at every quiescent point before choosing (invariants).
 	AtQuiescence []func()
 
-	prio     map[string]int
-	victim   string
-	starveTo int
-	gnames   map[string]string
-	Stats    Stats
-	OrderSeed uint64
+	prio        map[string]int
+	victim      string
+	starveTo    int
+	gnames      map[string]string
+	Stats       Stats
+	OrderSeed   uint64
 	lockTriples map[string]struct{}
 	// NoChunk disables random splitting of delivered segments.
 	NoChunk bool
@@ -76,11 +78,11 @@ type Sched struct {
 
 // Stats are per-run counters (reach measurement).
 type Stats struct {
-	Kinds    map[string]int // fired events by kind (prefix of key before ':')
-	IdleQ    int            // idle quanta
-	MaxEn    int            // max enabled set size
-	SimTime  time.Duration
-	Probes   map[string]int
+	Kinds   map[string]int // fired events by kind (prefix of key before ':')
+	IdleQ   int            // idle quanta
+	MaxEn   int            // max enabled set size
+	SimTime time.Duration
+	Probes  map[string]int
 }
 
 // Cur is the scheduler of the run in progress (nil outside runs). One run at a time per
@@ -105,16 +107,16 @@ func SplitMix(x uint64) uint64 {
 // New creates a scheduler owned by the calling goroutine (the bubble root).
 func New(seed uint64, strategy string) *Sched {
 	s := &Sched{
-		rng:      rand.New(rand.NewSource(int64(SplitMix(seed ^ 0x5ced)))),
-		gid:      goid(),
-		Seed:     seed,
-		Strategy: strategy,
-		Diverged: -1,
-		prio:     map[string]int{},
-		gnames:   map[string]string{},
-		Quantum:  10 * time.Millisecond,
-		IdleLimit: 400,
-		OrderSeed: SplitMix(seed ^ 0x0bde),
+		rng:         rand.New(rand.NewSource(int64(SplitMix(seed ^ 0x5ced)))),
+		gid:         goid(),
+		Seed:        seed,
+		Strategy:    strategy,
+		Diverged:    -1,
+		prio:        map[string]int{},
+		gnames:      map[string]string{},
+		Quantum:     10 * time.Millisecond,
+		IdleLimit:   400,
+		OrderSeed:   SplitMix(seed ^ 0x0bde),
 		lockTriples: map[string]struct{}{},
 	}
 	s.Stats.Kinds = map[string]int{}
@@ -167,6 +169,13 @@ func (s *Sched) Add(it *Item) {
 func (s *Sched) Park(key string, ready func() bool) {
 	ch := make(chan struct{})
 	s.Add(&Item{Key: key, Ready: ready, Fire: func(int) { close(ch) }})
+	<-ch
+}
+
+// Settle blocks the calling task until nothing else in the system is enabled.
+func (s *Sched) Settle(name string) {
+	ch := make(chan struct{})
+	s.Add(&Item{Key: "settle:" + name, Owner: name, Last: true, Fire: func(int) { close(ch) }})
 	<-ch
 }
 
@@ -298,6 +307,23 @@ func (s *Sched) Run(maxSteps int) error {
 			}
 			return en[i].seq < en[j].seq
 		})
+		hasFirst := false
+		for _, it := range en {
+			if !it.Last {
+				hasFirst = true
+				break
+			}
+		}
+		if hasFirst {
+			k := 0
+			for _, it := range en {
+				if !it.Last {
+					en[k] = it
+					k++
+				}
+			}
+			en = en[:k]
+		}
 		if len(en) > s.Stats.MaxEn {
 			s.Stats.MaxEn = len(en)
 		}
